@@ -94,9 +94,23 @@ impl<'a> FieldParser<'a> {
         self.tokens.extend(match &field.desc {
             ast::FieldDesc::Scalar { id, width } => {
                 let id = id.to_ident();
+                let span = self.span;
+                let decl_id = &self.packet_name;
+                let size = proc_macro2::Literal::usize_unsuffixed(*width / 8);
                 let value = types::get_uint(self.endianness, *width, self.span);
                 quote! {
-                    let #id = (#cond_id == #cond_value).then(|| #value);
+                    let #id = if #cond_id == #cond_value {
+                        if #span.remaining() < #size {
+                            return Err(DecodeError::LengthError {
+                                obj: #decl_id,
+                                wanted: #size,
+                                got: #span.remaining(),
+                            });
+                        }
+                        Some(#value)
+                    } else {
+                        None
+                    };
                 }
             }
             ast::FieldDesc::Typedef { id, type_id } => match &self.scope.typedef[type_id].desc {
@@ -106,19 +120,29 @@ impl<'a> FieldParser<'a> {
                     let id = id.to_ident();
                     let type_id = type_id.to_ident();
                     let decl_id = &self.packet_name;
+                    let span = self.span;
+                    let size = proc_macro2::Literal::usize_unsuffixed(*width / 8);
                     let value = types::get_uint(self.endianness, *width, self.span);
                     quote! {
-                        let #id = (#cond_id == #cond_value)
-                            .then(||
-                                #type_id::try_from(#value).map_err(|unknown_val| {
-                                    DecodeError::EnumValueError {
-                                        obj: #decl_id,
-                                        field: #name,
-                                        value: unknown_val as u64,
-                                        type_: #type_name,
-                                    }
-                                }))
-                            .transpose()?;
+                        let #id = if #cond_id == #cond_value {
+                            if #span.remaining() < #size {
+                                return Err(DecodeError::LengthError {
+                                    obj: #decl_id,
+                                    wanted: #size,
+                                    got: #span.remaining(),
+                                });
+                            }
+                            Some(#type_id::try_from(#value).map_err(|unknown_val| {
+                                DecodeError::EnumValueError {
+                                    obj: #decl_id,
+                                    field: #name,
+                                    value: unknown_val as u64,
+                                    type_: #type_name,
+                                }
+                            })?)
+                        } else {
+                            None
+                        };
                     }
                 }
                 ast::DeclDesc::Struct { .. } => {
